@@ -29,7 +29,7 @@ RULE = ('contents = any subset of the nine signatures (+ FAT look-alike) overlai
         'short files; x allowed_formats (None, singletons, all-but-raw, random subsets) x read-size sequences; the '
         'decision is sampled after every read. non-trivial = at least one signature present or a text/short file; '
         'distinct by (content digest, allowed set, read schedule)')
-REQUIRED_CLAUSES = ['formats-equal-signatures', 'format-decision', 'no-revision', 'only-ImageFormatError',
+REQUIRED_CLAUSES = ['interleaved-wrappers', 'zero-length-reads-are-neutral', 'formats-equal-signatures', 'format-decision', 'no-revision', 'only-ImageFormatError',
                     'raw-exclusive', 'detect_file_format', 'fd-balance']
 ASSUMPTIONS = ['signature predicates written from the property text and the layout comments, sharing no code with the inspectors',
                'F1: for text-like content the VMDK text-descriptor match is chunk dependent; vmdk in formats is DONT-CARE '
@@ -97,11 +97,15 @@ def eval_case(ctx, case):
     allowed = case.get('allowed')
     cuts = case['cuts']
     S, raw_ok, f1 = expected(content, allowed)
-    ctx.case((content, tuple(allowed or ()), tuple(cuts)), nontrivial=bool(S) or f1 or len(content) < 600)
+    ctx.case((content, tuple(allowed or ()), tuple(cuts), tuple(case.get('empties', ())), bool(case.get('short_reads'))),
+             nontrivial=bool(S) or f1 or len(content) < 600)
     ctx.h('signature count', len(S))
     ctx.h('allowed class', 'none' if not allowed else 'singleton' if len(allowed) == 1 else 'subset')
-    res = sl.feed_wrapper(content, cuts, allowed=allowed, monitor=False)
+    res = sl.feed_wrapper(content, cuts, allowed=allowed, monitor=False, empties=case.get('empties', ()),
+                          short_reads=case.get('short_reads', False))
     w = res['wrapper']
+    if case.get('empties'):
+        ctx.clause('zero-length-reads-are-neutral')
     if res['exc'] is not None:
         ctx.fail('read-raised', case, {'exc': res['exc']})
         return
@@ -186,9 +190,41 @@ def eval_detect(ctx, case):
         ctx.fail('detect_file_format', case, {'got': got, 'want': oks, 'signatures': sorted(S)})
 
 
+def eval_interleaved(ctx, case):
+    """Two wrappers alive at once, read alternately; each one's decision is the decision of its own content, and a
+    decision already handed out by the first is the same when asked again after the second has been read and closed."""
+    F = sl.fi()
+    ca, cb = build_content(case['a']), build_content(case['b'])
+    size = case['size']
+    solo = []
+    for c in (ca, cb):
+        r = sl.feed_wrapper(c, sl.fixed(len(c), size), monitor=False)
+        solo.append((r['final'], r['formats']))
+    import io
+    wa, wb = F.InspectWrapper(io.BytesIO(ca)), F.InspectWrapper(io.BytesIO(cb))
+    early_a = None
+    for k in range(max(len(ca), len(cb)) // size + 2):
+        wa.read(size)
+        if k == case.get('ask_after', 2):
+            early_a = sl._decision(wa)
+        wb.read(size)
+    wa.close()
+    da1 = (sl._decision(wa), sl._q(lambda: sorted(str(x) for x in wa.formats)))
+    wb.close()
+    db = (sl._decision(wb), sl._q(lambda: sorted(str(x) for x in wb.formats)))
+    da2 = (sl._decision(wa), sl._q(lambda: sorted(str(x) for x in wa.formats)))
+    ctx.case(('interleaved', ca, cb, size), nontrivial=bool(ig.sigs(ca) | ig.sigs(cb)))
+    ctx.clause('interleaved-wrappers')
+    if da1 != solo[0] or da2 != solo[0] or db != solo[1] or (early_a is not None and early_a != solo[0][0]):
+        ctx.fail('interleaved-wrappers', case, {'alone': solo, 'a_after_close': da1, 'a_asked_again': da2, 'b': db,
+                                                'a_early': early_a})
+
+
 def evaluate(ctx, case):
     if case.get('kind') == 'detect':
         eval_detect(ctx, case)
+    elif case.get('kind') == 'interleaved':
+        eval_interleaved(ctx, case)
     else:
         eval_case(ctx, case)
 
@@ -218,9 +254,18 @@ def cuts_for(rng, L):
 def run(ctx):
     idx = 0
 
+    vrng = ctx.rng('variants')
+
     def emit(case, klass):
         nonlocal idx
         idx += 1
+        v = vrng.random()
+        if 'kind' not in case and case.get('cuts') is not None and len(case['cuts']) < 3000:
+            nch = len(case['cuts']) + 1
+            if v < 0.2:       # zero-length reads: a probe before the first read, or somewhere in the middle
+                case = dict(case, empties=sorted({0 if vrng.random() < 0.5 else vrng.randrange(nch), vrng.randrange(nch)}))
+            elif v < 0.3:     # a source that returns short reads although 64 KiB were asked for
+                case = dict(case, short_reads=True)
         if ctx.mine(idx):
             ctx.sample(klass, case)
             evaluate(ctx, case)
@@ -304,8 +349,14 @@ def run(ctx):
                 [rng5.choice([0x80, 0x80, 0x00]), rng5.getrandbits(8), rng5.getrandbits(8), rng5.getrandbits(8),
                  rng5.choice([0x83, 0x17, 0x0c, 0xcd, 0xee, 0x00]), rng5.getrandbits(8), rng5.getrandbits(8),
                  rng5.getrandbits(8), lba, rng5.getrandbits(24)]] + [[0] * 10] * 3}}
+        if rng5.random() < 0.3:
+            # structurally complete but hostile first image (lengths / counts / signatures of inner structures off)
+            spec = ic.vhdx_corrupt(rng5) if rng5.random() < 0.6 else spec
+            if spec['gen'] != 'vhdx':
+                d0, t0 = ig.build(spec)
+                spec = ic.mutated(rng5, spec, len(d0), t0)
         data, _t = ig.build(spec)
-        mut = []
+        mut = list(spec.get('mut', []))
         if len(data) < 34816 + 64:
             mut.append(['extend', 34816 + 64 - len(data) + rng5.choice([0, 1, 5000]), rng5.choice([0, 0x41])])
         others = [n for n in ('iso', 'vdi', 'gpt', 'qcow2', 'vhd', 'luks', 'qed', 'vmdk', 'vhdx')]
@@ -318,6 +369,20 @@ def run(ctx):
         data, _t = ig.build(spec)
         emit({'spec': spec, 'allowed': allowed_pool(rng5) if rng5.random() < 0.4 else None,
               'cuts': cuts_for(rng5, len(data))}, 'valid-image-polyglot')
+    # two wrappers alive at the same time
+    rng6 = ctx.rng('interleaved')
+    for i in range(ctx.pick(150, 5000)):
+        def one():
+            if rng6.random() < 0.5:
+                return {'spec': ic.wellformed(rng6, rng6.choice(ic.FORMATS + ['raw']))}
+            mask = rng6.getrandbits(9) & rng6.getrandbits(9)
+            return {'length': rng6.choice([512, 600, 4096, 40000]), 'bg': rng6.choice(['zero', 'random', 'text']),
+                    'seed': rng6.getrandbits(16), 'sigs': [SIGNAMES[j] for j in range(9) if mask >> j & 1]}
+        a, b = one(), one()
+        if rng6.random() < 0.3:
+            b = dict(a, seed=rng6.getrandbits(16)) if 'length' in a else {'spec': ic.wellformed(rng6, a['spec']['gen'])}
+        emit({'kind': 'interleaved', 'a': a, 'b': b, 'size': rng6.choice([512, 4096, 65536, 100]),
+              'ask_after': rng6.choice([0, 1, 2, 8])}, 'interleaved')
     # detect_file_format on disk
     rng3 = ctx.rng('detect')
     for i in range(ctx.pick(400, 30000)):
